@@ -149,7 +149,29 @@ Definition ok_step (frepr : fl -> str) (s : spec2) (t0 t1 : fs) (st : step_C02) 
               end) (sp_roots s) in
           (ok, s)
       end
-  | OInit _ true => (true, s)
+  | OInit h true =>
+      (* force only matters for a file that does NOT hold the handle's state point: an initialised job persists exactly -
+         a forced init of a job whose state point file already parses to the handle's state point succeeds and touches
+         nothing (same bytes, same inode); for a damaged / foreign file nothing is claimed here *)
+      let '(i, osp) := hinfo s h in
+      match osp with
+      | None => (true, s)
+      | Some sp =>
+          (existsb (fun root =>
+             let jd := root ++ [WS; i] in
+             let f := jd ++ [SPF] in
+             tree_same_except [jd] t0 t1 &&
+             match get t0 f with
+             | Some (File c0) =>
+                 match c_json c0 with
+                 | Some v => if json_same v sp
+                             then oval_is (st_out st) VUnit && pure && node_same (get t0 f) (get t1 f)
+                             else true
+                 | None => true
+                 end
+             | _ => true
+             end) (sp_roots s), s)
+      end
   | OSp h | OCached h =>
       let '(i, osp) := hinfo s h in
       match osp with
